@@ -88,7 +88,7 @@ pub(crate) const DATARATES: [Option<Datarate>; NUM_DATARATES as usize] = [
     Some(Datarate {
         spreading_factor: SpreadingFactor::_10,
         bandwidth: Bandwidth::_125KHz,
-        max_mac_payload_size: 123,
+        max_mac_payload_size: 59,
         max_mac_payload_size_with_dwell_time: 19,
     }),
     // DR3
